@@ -491,6 +491,7 @@ class Fixture:
         self.dev = E.App(self.devobj, self.vlan)
         self.dest = E.Address(2)
         self.objects = []          # (spec, instance)
+        self.shadow = {}           # oracle's own record of the commands it has sent: (type, inst) -> {priority: value hex}
         for o in spec["objects"]:
             cls = get_class(E, o["kind"], o["type"], o["own"])
             kw = {"objectIdentifier": (cls.objectType, o["inst"]), "objectName": o["name"]}
@@ -691,8 +692,12 @@ def wire_of(E, fx, op):
                     return {"chunks": [tags], "dec": "other"}
                 chunks.append(it["enc"])
             return {"chunks": chunks, "dec": "ok"}
-        a.cast_out(target)
-        return whole
+        # what the device stores is the decoded value; a read re-encodes it (a lenient decoder may
+        # accept a non-canonical encoding, e.g. an absent empty list): the model gets the re-encoding
+        it = elem_item(E, target, a.cast_out(target))
+        if "enc" not in it:
+            return {"chunks": [tags], "dec": "other"}
+        return {"chunks": [it["enc"]], "dec": "ok"}
     except RejectException as e:
         return {"chunks": [tags], "dec": "reject:%d" % E.rejreason[e.rejectReason]}
     except Exception:
@@ -917,7 +922,49 @@ def directed_ops(E, fx, rng, limit=70):
                     ops.append({"op": "wp", "oid": oid, "pid": E.pidnum["presentValue"], "idx": None, "tags": tags,
                                 "prio": prio, "vclass": "typed"})
     rng.shuffle(ops)
-    return ops[:limit]
+    return falsy_command_ops(E, fx, rng) + ops[:limit]
+
+
+def falsy_tags(dt):
+    """the zero / empty value of an atomic present-value datatype, as tags (None if there is none)"""
+    from bacpypes import primitivedata as pd
+    for klass, v in ((pd.Real, 0.0), (pd.Double, 0.0), (pd.Unsigned, 0), (pd.Integer, 0), (pd.CharacterString, ""),
+                     (pd.OctetString, b""), (pd.BitString, []), (pd.Boolean, False)):
+        if issubclass(dt, klass):
+            return jt(any_of_value(dt(v)).tagList)
+    if issubclass(dt, pd.Enumerated) and 0 in dt._xlate_table:
+        return jt(any_of_value(dt(0)).tagList)
+    return None
+
+
+def falsy_command_ops(E, fx, rng):
+    """for every commandable object: a non-zero value at a low priority (number 12), then the
+    zero / empty value (0.0, 0, inactive, '') above it (number 4), the relinquish of both, and the
+    zero value alone — in this order (the oracle reads presentValue after each)"""
+    ops = []
+    NULL = [[0, 0, 0, ""]]
+    for spec, inst in fx.all_objects():
+        if getattr(type(inst), "_pv_choice", None) is None:
+            continue
+        p = inst._properties["presentValue"]
+        fz = falsy_tags(p.datatype)
+        if fz is None:
+            continue
+        nz = None
+        for _ in range(20):
+            t = gen_tags(E, p.datatype, rng)
+            if t is not None and t != fz and cmd_value_ok(p, t):
+                nz = t
+                break
+        if nz is None:
+            continue
+        t, i = inst._values["objectIdentifier"]
+        oid, pid = [E.otnum[t], i], E.pidnum["presentValue"]
+        lo, hi = rng.choice([(12, 4), (16, 1), (None, 8), (9, 8)])
+        for tags, prio, vc in ((nz, lo, "typed"), (fz, hi, "typed"), (NULL, hi, "null"), (fz, hi, "typed"),
+                               (NULL, lo, "null"), (NULL, hi, "null"), (fz, None, "typed"), (nz, 16, "typed"), (fz, 16, "typed")):
+            ops.append({"op": "wp", "oid": oid, "pid": pid, "idx": None, "tags": tags, "prio": prio, "vclass": vc})
+    return ops
 
 
 def cmd_value_ok(p, tags):
@@ -1143,15 +1190,29 @@ def oracle_write(ctx, E, fx, case, op, f, rep, before, after, wire):
     if not acked:
         return
     # write_then_read (over the wire)
+    is_null = op["tags"] == [[0, 0, 0, ""]]
+    if pure_pa and idx not in (None, 0) and is_null:
+        # an acknowledged direct relinquish of one slot: the shadow follows
+        fx.shadow.setdefault(tuple(op["oid"]), {}).pop(idx, None)
+        oracle_present_value(ctx, E, fx, case, op, rep)
+        return
     if f["custom"] not in ("std", "wrName") or pure_pa:
         return
-    written = hex_of_tags(op["tags"])
+    # the written value: for a constructed value its canonical re-encoding (see wire_of)
+    written = hex_of_tags([t for ch in wire["chunks"] for t in ch] if wire.get("dec") == "ok" else op["tags"])
     if f["is_cmd"] and p.identifier == "presentValue":
         # the command sits in its slot (or the slot is Null after a relinquish)
         prio = 16 if op["prio"] is None else op["prio"]
         back = rp(E, fx, op["oid"], E.pidnum["priorityArray"], prio)
         if back.get("r") != "ack" or back.get("hex") != written:
             bad("write-then-read", "priorityArray[%d] reads %r after writing %s" % (prio, back, written))
+        # ... and presentValue shows the highest-priority command the oracle has sent
+        slots = fx.shadow.setdefault(tuple(op["oid"]), {})
+        if is_null:
+            slots.pop(prio, None)
+        else:
+            slots[prio] = written
+        oracle_present_value(ctx, E, fx, case, op, rep)
         return
     if op.get("vclass") == "null":
         return
@@ -1174,6 +1235,29 @@ def oracle_write(ctx, E, fx, case, op, f, rep, before, after, wire):
             bk = rp(E, fx, op["oid"], op["pid"], k)
             if bk.get("r") != "ack" or bk.get("hex") != hex_of_tags(ch):
                 bad("write-then-read", "element %d reads %r after writing %s" % (k, bk, hex_of_tags(ch)))
+
+
+def oracle_present_value(ctx, E, fx, case, op, rep):
+    """after an acknowledged command / relinquish: ReadProperty(presentValue) returns the
+    value commanded at the lowest occupied priority number according to the oracle's own
+    shadow of the commands it has sent, or the relinquishDefault when every slot is empty"""
+    slots = fx.shadow.get(tuple(op["oid"]), {})
+    pv = rp(E, fx, op["oid"], E.pidnum["presentValue"], None)
+    if slots:
+        top = min(slots)
+        want, why = slots[top], "the command at priority %d" % top
+    else:
+        rd = rp(E, fx, op["oid"], E.pidnum["relinquishDefault"], None)
+        if rd.get("r") != "ack":
+            return
+        want, why = rd["hex"], "the relinquishDefault (no command left)"
+    if pv.get("r") != "ack" or pv.get("hex") != want:
+        ctx.fail("present-value", case,
+                 "presentValue reads %r after an acknowledged %s at priority %r; expected %s = %s (commands sent: %r)" % (
+                     pv, "relinquish" if op["tags"] == [[0, 0, 0, ""]] else "command of " + hex_of_tags(op["tags"]),
+                     op["prio"] if op["pid"] == E.pidnum["presentValue"] else op["idx"], why, want,
+                     sorted(slots.items())),
+                 op=op, reply=rep, commands=sorted(slots.items()))
 
 
 def oracle_rpm(ctx, E, fx, case, op, rep):
